@@ -505,7 +505,10 @@ func c13Revolut() *c13Importer {
 		Name: "revolut", Account: acct, File: "s.csv", Mono: -1, Vars: []string{"EUR", "CHF"},
 		Args: func(string) []string { return []string{"--account", acct} },
 		Alpha: func(d c13Dims) []c13Row {
-			return c13Alpha(d, false, []c13KS{{Kind: "paid-out", T: c13TAll}, {Kind: "paid-in", T: c13TFew}, {Kind: "sold"}, {Kind: "bought"}})
+			return c13Alpha(d, false, []c13KS{{Kind: "paid-out", T: c13TAll}, {Kind: "paid-in", T: c13TFew}, {Kind: "sold"}, {Kind: "bought"},
+				// card payment / refund in a foreign currency: the statement carries the foreign
+				// amount in the exchange column, but the row is an ordinary booking
+				{Kind: "paid-out-foreign", T: c13TFew}, {Kind: "paid-in-foreign"}})
 		},
 		Render: func(cur string, rows []c13Row) (string, [][]string, []string) {
 			oth := c13Other(cur)
@@ -513,7 +516,7 @@ func c13Revolut() *c13Importer {
 			signed := make([]*big.Rat, len(rows))
 			for i, r := range rows {
 				signed[i] = c13Rat(r.Amt)
-				if r.Kind == "paid-out" || r.Kind == "sold" {
+				if r.Kind == "paid-out" || r.Kind == "sold" || r.Kind == "paid-out-foreign" {
 					signed[i].Neg(signed[i])
 				}
 			}
@@ -537,6 +540,12 @@ func c13Revolut() *c13Importer {
 					wants = append(wants, []string{c13T(r.Date, c13Eff(cur, "-"+r.Amt))})
 				case "paid-in":
 					fmt.Fprintf(&b, "%s;%s;;%s%s;;;%s;%s;General\n", d, t, nb, r.Amt, bs, nb)
+					wants = append(wants, []string{c13T(r.Date, c13Eff(cur, r.Amt))})
+				case "paid-out-foreign":
+					fmt.Fprintf(&b, "%s;%s;%s%s;;%s %s5.86;;%s;FX-rate € 1 = USD 1.1445;Transport\n", d, t, nb, r.Amt, oth, nb, bs)
+					wants = append(wants, []string{c13T(r.Date, c13Eff(cur, "-"+r.Amt))})
+				case "paid-in-foreign":
+					fmt.Fprintf(&b, "%s;Refund;;%s%s;;%s %s2.29;%s;FX-rate € 1 = USD 1.1445;General\n", d, nb, r.Amt, oth, nb, bs)
 					wants = append(wants, []string{c13T(r.Date, c13Eff(cur, r.Amt))})
 				case "sold":
 					fmt.Fprintf(&b, "%s;Sold %s to %s;%s%s;;%s %s199.95;;%s;FX-rate € 1 = CHF 1.0809;General\n", d, cur, oth, nb, r.Amt, oth, nb, bs)
